@@ -294,6 +294,7 @@ def evaluate(case, ctx):
                                       {"cell": key, "matrix": a, "linear": b}, case)
             mrp = res.path("transcript_model_reads.tsv", prefix=pref)
             sole = defaultdict(float)
+            model_exp = defaultdict(float)
             if mrp:
                 per_read = defaultdict(set)
                 for rid, tid in parse.model_reads(mrp):
@@ -302,6 +303,11 @@ def evaluate(case, ctx):
                 for rid, tids in per_read.items():
                     if len(tids) == 1:
                         sole[(next(iter(tids)), group_of(rid))] += 1.0
+                    # a read that supports n models weighs 1 (n = 1) or what the transcript strategy gives an ambiguous
+                    # read with n features, in the column of its own group
+                    w_ = 1.0 if len(tids) == 1 else counting.weight("ambiguous", len(tids), sc["tq"])
+                    for tid in tids:
+                        model_exp[(tid, group_of(rid))] += w_
             for name, cells in tables.items():
                 rows_ = defaultdict(dict)
                 for (f, g), v in cells.items():
@@ -313,6 +319,13 @@ def evaluate(case, ctx):
                                       {"feature": f, "sum": tot, "ungrouped": ung.get(f, 0.0),
                                        "row": rows_.get(f, {})}, case)
                 if "--transcript_quantification" in sc["opts"] and not multi_locus_reads(records):
+                    for (f, g) in set(model_exp) | set(cells):
+                        if ung.get(f, 0.0) > 0 and abs(cells.get((f, g), 0.0) - model_exp.get((f, g), 0.0)) > 0.0051 * max(
+                                1, sum(1 for k_ in model_exp if k_[0] == f)):
+                            ctx.violation("C09:%s-cell-differs-from-the-reads-of-the-group:transcript_model" % name,
+                                          {"feature": f, "group": g, "table": cells.get((f, g), 0.0),
+                                           "expected": round(model_exp.get((f, g), 0.0), 4)}, case)
+                            break
                     for (f, g), v in sole.items():
                         if ung.get(f, 0.0) > 0 and cells.get((f, g), 0.0) + 0.005 < v:
                             ctx.violation("C09:%s-cell-below-the-reads-of-the-group:transcript_model" % name,
